@@ -199,6 +199,13 @@ impl Scene for S {
             return out;
         };
         let settled = t.res.end == crate::vexec::EndReason::Quiescent;
+        // --- nothing but errors reaches the others: no operation of any client - on A or on a
+        // bystander - ends in a panic thrown into its caller
+        for o in &an.ops {
+            if o.res == Some(Res::Panicked) {
+                v("failure-contained", format!("C06/panic-escaped-into-caller/client={}/cause={ck}", o.c), format!("client {} op {} panicked: A's failure was thrown into a caller instead of being reported as an error", o.c, o.i));
+            }
+        }
         // --- every pending and future operation on A resolves with an error
         for o in &an.ops {
             let on_a = matches!(o.c, DRIVER | AWAITER | OWNER | LATE);
@@ -347,7 +354,7 @@ fn causes(tier: Tier) -> Vec<Cause> {
     v
 }
 
-fn cases(tier: Tier) -> Vec<Case> {
+fn base_cases(tier: Tier) -> Vec<Case> {
     let mut v = vec![];
     let subs: Vec<(&str, Parts)> = vec![
         ("pending+later-ops", Parts { late_ops: true, ..Parts::default() }),
@@ -397,6 +404,14 @@ fn cases(tier: Tier) -> Vec<Case> {
         }
     }
     v
+}
+
+fn cases(tier: Tier) -> Vec<Case> {
+    // neutral re-configurations (see check::widen)
+    // (quick tier: the small sub-scenes only)
+    let small = move |d: &str| tier == Tier::Thorough || !(d.contains("full-scene") || d.contains("sub=timers+children") || d.contains("sub=bystander+registry") || d.contains("sub=awaiters+owner"));
+    let no_timeout = move |d: &str| !d.contains("Timeout") && small(d);
+    crate::check::widen(&|| base_cases(tier), &no_timeout, &small, Some(&no_timeout))
 }
 
 pub fn property() -> Property {
